@@ -5,12 +5,12 @@
 # fail) and without it (must pass), 3. runs the registered check(s) against the worktree
 # (VERIF_REPO=<worktree>), 4. prints a summary.  Nothing in /repo is touched.
 id=$1; shift
-wt=/tmp/seed_$id; out=/tmp/seed_${id}_out
+P=${SEEDPFX:-seed}; wt=/tmp/${P}_$id; out=/tmp/${P}_${id}_out
 [ -d "$wt" ] || { echo "no worktree $wt"; exit 2; }
 cd "$wt" || exit 2
-git diff > /tmp/seed_${id}_cur.diff
-if ! diff -q /tmp/seed_${id}_cur.diff "$out/patch.diff" >/dev/null; then
-  echo "NOTE: worktree diff differs from patch.diff; using worktree diff"; cp /tmp/seed_${id}_cur.diff "$out/patch.diff"
+git diff > /tmp/${P}_${id}_cur.diff
+if ! diff -q /tmp/${P}_${id}_cur.diff "$out/patch.diff" >/dev/null; then
+  echo "NOTE: worktree diff differs from patch.diff; using worktree diff"; cp /tmp/${P}_${id}_cur.diff "$out/patch.diff"
 fi
 echo "== patch: $(git diff --stat | tail -1)"
 demo=$(ls $out/demo.py $out/test_demo.py 2>/dev/null | head -1)
@@ -25,5 +25,5 @@ echo "== demo WITH change"; run_demo
 git apply -R "$out/patch.diff" && { echo "== demo WITHOUT change"; run_demo; git apply "$out/patch.diff"; }
 for c in $id "$@"; do
   echo "== check $c against $wt"
-  (cd /verif && VERIF_REPO="$wt" timeout 3000 ./check $c > /tmp/seed_${id}_check_$c.log 2>&1; echo "exit=$?"; grep -E "VIOLATION|KNOWN-FINDING|ok " /tmp/seed_${id}_check_$c.log | head -8)
+  (cd /verif && VERIF_REPO="$wt" timeout 3000 ./check $c > /tmp/${P}_${id}_check_$c.log 2>&1; echo "exit=$?"; grep -E "VIOLATION|KNOWN-FINDING|ok " /tmp/${P}_${id}_check_$c.log | head -8)
 done
